@@ -42,3 +42,7 @@ def run(ck):
     strings.render_sites(ck, "C11.R1")
     strings.hex_image(ck, "C11.R2")
     fresh.reset_only_by_user(ck, "C04.R7")
+    carriers.indicator_after_record(ck, "C18.R2")
+    ops.bit_primitives(ck, "C13.R1")                   # "the bitwise operators are exact at these widths"
+    ops.bit_methods(ck, "C13.R2")
+    ops.resign_helper(ck, "C13.R3")
